@@ -1,5 +1,5 @@
 (* C20 — rebalancing settles. Break half. *)
-From PF Require Import Base ModelReg ProofsRegBasic.
+From PF Require Import Base ModelReg ModelSys ProofsRegBasic.
 
 (* a table that is told to break hands back all of its players: whenever SyncState removes the
    table, the release count is the table's whole remaining player count *)
